@@ -42,6 +42,11 @@ pub struct SG {
     pub rules: Vec<SRule>,
 }
 
+/// The text of a string recogniser as written between single quotes.
+fn esc(l: &str) -> String {
+    l.replace('\\', "\\\\").replace('\'', "\\'")
+}
+
 fn lit(t: &Term) -> &str {
     match &t.rec {
         Rec::Lit(l) => l,
@@ -80,7 +85,7 @@ impl SG {
                                 match it.sym {
                                     Sym::T(t) => {
                                         if it.inline {
-                                            x.push_str(&format!("'{}'", lit(&self.terms[t])))
+                                            x.push_str(&format!("'{}'", esc(lit(&self.terms[t]))))
                                         } else {
                                             x.push_str(&self.terms[t].name)
                                         }
@@ -111,7 +116,7 @@ impl SG {
         }
         s.push_str("terminals\n");
         for t in &self.terms {
-            s.push_str(&format!("{}: '{}'{};\n", t.name, lit(t), t.meta.text()));
+            s.push_str(&format!("{}: '{}'{};\n", t.name, esc(lit(t)), t.meta.text()));
         }
         s
     }
@@ -282,6 +287,14 @@ pub fn gen_sg(rng: &mut Rng) -> SG {
         let j = (k + 1 + rng.below(tt - 1)) % tt;
         let other = terms[j].name.clone();
         terms[k].rec = Rec::Lit(other);
+    }
+    if rng.chance(0.1) {
+        // string recognisers that need escapes: a quote, a backslash
+        let k = rng.below(tt);
+        let l = *rng.pick(&["'", "\\", "a'", "x'y", "''"]);
+        if !terms.iter().any(|t| matches!(&t.rec, Rec::Lit(x) if x == l)) {
+            terms[k].rec = Rec::Lit(l.to_string());
+        }
     }
     for t in &mut terms {
         if rng.chance(0.2) {
